@@ -148,7 +148,21 @@ func classify(log map[uint64]uint64, alt map[uint64]altDig, rd *readSpec) string
 		}
 		return cause
 	}
-	if rd.Err != "" || rd.Count <= 1 {
+	if rd.Err != "" {
+		// F7: everything before an entry whose stored row does not decode was delivered, then the read failed
+		if len(got) < len(exp) {
+			for i := range got {
+				if got[i] != exp[i] {
+					return "other"
+				}
+			}
+			if a, ok := alt[exp[len(got)][0]]; ok && a.cause == "F7" {
+				return "F7"
+			}
+		}
+		return "other"
+	}
+	if rd.Count <= 1 {
 		return "other"
 	}
 	// F10: got is a strict prefix of the expectation and a part before the first missing event
@@ -234,6 +248,7 @@ func runLog(sc *scenario) (string, []string, error) {
 		}
 	}
 	ls.Puts = nil
+	probes := uint64(0)
 	classes := map[string]bool{}
 	doRead := func(rd *readSpec) error {
 		rd.Got, rd.Err = nil, ""
@@ -316,6 +331,20 @@ func runLog(sc *scenario) (string, []string, error) {
 				return "", nil, err
 			}
 			obs.Dig = d.Digest
+			if d.NameUnparsable {
+				// does the stored row decode? ask the real decoder with a copy at a scratch offset;
+				// stored digest 0 = "reading this entry from the storage fails"
+				rawRow, ok, err := r.rawEvent(false, uint64(s.Part), s.POff)
+				if err != nil || !ok {
+					return "", nil, fmt.Errorf("stored PLog row not found (%v)", err)
+				}
+				probes++
+				if r.decodeStored(probes, append([]byte{}, rawRow...)) == "error" {
+					d.StoredDigest = 0
+				} else {
+					d.Cause = ""
+				}
+			}
 			store(lk{false, uint64(s.Part)}, s.POff, d)
 			if d.Cause != "" {
 				tags["put-stored-form-differs:"+d.Cause] = true
@@ -362,6 +391,8 @@ func runLog(sc *scenario) (string, []string, error) {
 		tags["C02-F4:invalid-event-arguments-not-stored"] = true
 	case len(classes) == 1 && classes["F6"]:
 		tags["C02-F6:error-text-cut"] = true
+	case len(classes) == 1 && classes["F7"]:
+		tags["C02-F7:error-event-with-unparsable-name-unreadable"] = true
 	case len(classes) == 1 && classes["F4+F6"]:
 		tags["C02-F4:invalid-event-arguments-not-stored"] = true
 		tags["C02-F6:error-text-cut"] = true
